@@ -42,10 +42,10 @@ ASSUMPTIONS = [
 NFS = progs.N_ALL_FS
 SCHEMA = {
     "m": [("api", 8), ("fs", NFS)],
-    "a": [("style", 6), ("typed", 3), ("exit", 9), ("sf", NFS), ("ef", NFS), ("xf", 2)],
+    "a": [("style", 6), ("typed", 3), ("exit", 11), ("sf", NFS), ("ef", NFS), ("xf", 2)],
 }
 # ok, ValueError, StrRaises, Custom, BadExtract, BadExtract propagating, KeyboardInterrupt, ValueError one level up
-EXIT_MAP = [0, 1, 6, 3, 16, 17, 4, 11, 18]  # 18: exception whose extractor fails into another failing extractor
+EXIT_MAP = [0, 1, 6, 3, 16, 17, 4, 11, 18, 19, 20]  # 18: exception whose extractor fails into another failing extractor; 19, 20: exception whose bool()/len() raise
 
 
 def BOUNDS(tier):
